@@ -26,6 +26,10 @@ NCPU = os.cpu_count() or 4
 
 # per property: test regexp, shards per tier, deadline seconds per tier, race build, level category
 PROPS = {
+    "C01": dict(run="^TestC01$", shards=(4, 16), deadline=(300, 2400)),
+    "C04": dict(run="^TestC04$", shards=(4, 16), deadline=(300, 1800)),
+    "C05": dict(run="^TestC05$", shards=(4, 16), deadline=(300, 1800)),
+    "C12": dict(run="^TestC12$", shards=(4, 16), deadline=(300, 1800)),
     "C13": dict(run="^TestC13$", shards=(1, 4), deadline=(120, 900)),
 }
 
